@@ -255,6 +255,7 @@ func (s *Server) ServeBackName(c *aries.C, name string) error {
 	if err := ep.serve(); err != nil {
 		log.Printf("serve endpoint: %s", err)
 	}
+	verifPoint("served", name, ep)
 	return nil
 }
 
